@@ -1,4 +1,4 @@
-import SaModel.Build.Builder
+import SaModel.Lemmas.C18Reps
 import SaModel.Read.Label
 import SaModel.Generated.Annotations
 /-
@@ -24,7 +24,7 @@ The `#eval` at the end of each section is a diagnostic only: when an obligation 
 type in the build log (which `./check` copies into the replay file).  The obligations are the theorems.
 -/
 namespace SaModel.Props.C18Gen
-open SaModel SaModel.Build SaModel.Generated.Annotations
+open SaModel SaModel.Build SaModel.Generated.Annotations SaModel.Lemmas.C18Reps
 
 /-! ### keys -/
 
@@ -82,30 +82,6 @@ def modelLabel (dt : DataType) (md : Metadata) : Option String :=
   | .ok b => some b.label
   | .error _ => none
 
-def el : Field := .mk "element" .int8 false []
-
-/-- one data type per constructor of `DataType` that `build_builder` has an arm for (with the metadata that select
-each variant of the arm, in the order of the arm: `Null` builds `UnknownVariant` under that strategy, else `Null`) -/
-def builderReps : List (String × List (DataType × Metadata)) := [
-  ("Null", [(.null, [(STRATEGY_KEY, "UnknownVariant")]), (.null, [])]),
-  ("Boolean", [(.boolean, [])]),
-  ("Int8", [(.int8, [])]), ("Int16", [(.int16, [])]), ("Int32", [(.int32, [])]), ("Int64", [(.int64, [])]),
-  ("UInt8", [(.uint8, [])]), ("UInt16", [(.uint16, [])]), ("UInt32", [(.uint32, [])]), ("UInt64", [(.uint64, [])]),
-  ("Float16", [(.float16, [])]), ("Float32", [(.float32, [])]), ("Float64", [(.float64, [])]),
-  ("Date32", [(.date32, [])]), ("Date64", [(.date64, [])]),
-  ("Timestamp", [(.timestamp .millisecond none, [])]),
-  ("Time32", [(.time32 .second, [])]), ("Time64", [(.time64 .nanosecond, [])]),
-  ("Duration", [(.duration .microsecond, [])]),
-  ("Decimal128", [(.decimal128 10 2, [])]),
-  ("Utf8", [(.utf8, [])]), ("LargeUtf8", [(.largeUtf8, [])]), ("Utf8View", [(.utf8View, [])]),
-  ("List", [(.list el, [])]), ("LargeList", [(.largeList el, [])]), ("FixedSizeList", [(.fixedSizeList el 3, [])]),
-  ("Binary", [(.binary, [])]), ("LargeBinary", [(.largeBinary, [])]), ("BinaryView", [(.binaryView, [])]),
-  ("FixedSizeBinary", [(.fixedSizeBinary 4, [])]),
-  ("Map", [(.map (.mk "entries" (.struct (.cons (.mk "key" .utf8 false []) (.cons (.mk "value" .int8 true []) .nil))) false []) false, [])]),
-  ("Struct", [(.struct (.cons (.mk "a" .int8 false []) .nil), [])]),
-  ("Dictionary", [(.dictionary .uint32 .utf8, [])]),
-  ("Union", [(.union (.cons 0 (.mk "A" .null true []) .nil) .dense, [])])]
-
 /-- the representatives are filed under their own constructor, and the model builds a builder for each -/
 theorem builderReps_sound :
     (∀ e ∈ builderReps, ∀ r ∈ e.2, r.1.ctor = e.1 ∧ (modelLabel r.1 r.2).isSome = true) ∧
@@ -132,27 +108,6 @@ def builderOffenders : List (String × List (Option String) × Option (List (Opt
     (fun e => (e.1, rustBuilderLabels e, modelBuilderLabels e.1))
 
 /-! ### readers -/
-
-def i8s : Arr := .prim .int8 none []
-
-/-- one array per constructor of `View` that `ArrayDeserializer::new` has an arm for -/
-def readerReps : List Arr := [
-  .null 0, .boolean 0 none ⟨[], 0⟩,
-  .prim .int8 none [], .prim .int16 none [], .prim .int32 none [], .prim .int64 none [],
-  .prim .uint8 none [], .prim .uint16 none [], .prim .uint32 none [], .prim .uint64 none [],
-  .prim .float16 none [], .prim .float32 none [], .prim .float64 none [],
-  .decimal128 10 2 none [], .prim .date32 none [], .prim .date64 none [],
-  .time .time32 .second none [], .time .time64 .nanosecond none [], .timestamp .millisecond none none [],
-  .time .duration .microsecond none [],
-  .bytes .utf8 none [0] [], .bytes .largeUtf8 none [0] [], .bytesView .utf8View none [] [],
-  .bytes .binary none [0] [], .bytes .largeBinary none [0] [], .bytesView .binaryView none [] [],
-  .fixedSizeBinary 4 none [],
-  .list false none [0] ⟨"element", false, []⟩ i8s, .list true none [0] ⟨"element", false, []⟩ i8s,
-  .fixedSizeList 0 none 3 ⟨"element", false, []⟩ i8s,
-  .struct 0 none (.cons ⟨"a", false, []⟩ i8s .nil),
-  .map none [0] ⟨"entries", false, ⟨"key", false, []⟩, ⟨"value", true, []⟩⟩ (.bytes .utf8 none [0] []) i8s,
-  .union [] (some []) (.cons 0 ⟨"A", true, []⟩ (.null 0) .nil),
-  .dictionary (.prim .uint32 none []) (.bytes .utf8 none [0] [])]
 
 /-- the model's label for the reader family of a `View` constructor -/
 def modelReaderLabel (ctor : String) : Option String :=
